@@ -82,6 +82,10 @@ def deviations(base, alpha, dmax):
 # SM inputs of the MSSM points: alpha(MZ), alpha(0), MW, MZ, m_mu, mt, mb(mb), mtau; None = value of the example
 MSSM_SM_ALT = [[0.00781], [0.0073], [80.0], [91.5], [0.11, 0.1], [170.0], [4.5], [1.8]]
 # SM inputs of the THDM points: m_e, m_mu, m_tau, MW, MZ, alpha_em(MZ), mhSM; None = default of gm2calc::SM / example
+# complete non-default SM input sets (all of alpha(MZ), MW, MZ differ from the library's and the example's values)
+MSSM_SM_FULL = [(0.00781, 0.0073, 80.0, 91.5, 0.11, 170.0, 4.5, 1.8),
+                (0.0076, 0.00729, 81.0, 90.5, 0.1, 175.0, 4.0, 1.7),
+                (0.0079, 0.0073, 79.5, 92.0, 0.1056583715, 173.34, 4.18, 1.777)]
 THDM_SM_ALT = [[0.00075], [0.1, 0.11], [1.9], [79.0], [92.5], [1 / 127.0], [120.0, 130.0]]
 
 
@@ -123,6 +127,9 @@ def mssm_points(quick):
         for sm, ds in sm_deviations(MSSM_SM_ALT, 2):
             for s in SIGNS:
                 add(b, s, "%s+0+SM%d" % (name, ds), sm)
+        for sm in MSSM_SM_FULL:
+            for s in SIGNS:
+                add(b, s, "%s+0+SMfull" % name, sm)
         if not quick:
             for p, d in deviations(b, MSSM_ALPHA, 1):
                 if d == 0:
@@ -372,6 +379,44 @@ def _work(chunk):
     return out
 
 
+ORDER_NAME = ("canonical: SM inputs, tan(beta), rest", "tan(beta) first, then SM inputs", "SM inputs last of all",
+              "canonical reversed call by call", "as GM2_slha_io::fill_slha (alphas last)",
+              "canonical with the example's SM inputs, then SM inputs overwritten")
+
+
+def _rel_diff(a, b):
+    """largest relative difference between the numeric tokens of two `M OK ...` result lines (a_mu entries relative
+    to |chi0| + |chi+-|); None if the lines differ in structure"""
+    ta, tb = a.split(), b.split()
+    if len(ta) != len(tb):
+        return None
+    worst, scale = 0.0, None
+    va, vb = [], []
+    for x, y in zip(ta, tb):
+        if x == y:
+            va.append(None)
+            continue
+        try:
+            va.append((unhex(x), unhex(y)))
+        except ValueError:
+            return None
+    try:
+        scale = abs(unhex(ta[15])) + abs(unhex(ta[16]))      # tokens: M OK 13 parameters chi0 chipm tot ...
+    except (ValueError, IndexError):
+        return None
+    for k, pr in enumerate(va):
+        if pr is None:
+            continue
+        x, y = pr
+        den = max(abs(x), abs(y))
+        if abs(x) < 1e-6 and scale:      # a_mu-sized entries
+            den = scale
+        if den == 0:
+            continue
+        worst = max(worst, abs(x - y) / den)
+    return worst
+
+
 def _first_diff(a, b):
     ta, tb = a.split(), b.split()
     for i, (x, y) in enumerate(zip(ta, tb)):
@@ -445,6 +490,44 @@ def run(ctx):
             ctx.fail("MSSM.object-reuse:%s:differs-from-fresh-object" % cmd,
                      "%s: result on a re-used model object differs from the fresh-object result (first differing token %s)"
                      % (_decode(ln), _first_diff(mres[i], a)), {"kind": "R", "lines": rlines[:rlines.index(ln) + 1][-40:], "fresh": mlines[i]})
+    # order of the setter calls: every k-th SM-varied point is set up in six different orders (harness ordered_setup:
+    # canonical / tan(beta) first / SM inputs last / reversed / as fill_slha() / canonical with the example's SM inputs,
+    # then SM inputs overwritten), evaluated, and evaluated again after a second calculate_masses() on the same object.
+    # Same oracle on every order; results must be independent of the order and unchanged by the second call: bitwise, or
+    # within 1e-12 (tan(beta) is stored as vu/vd, so a rounding-level dependence would be legitimate).
+    ostep = 4 if ctx.quick else 5
+    smv = [i for i, p in enumerate(mpts) if p[2] is not None]
+    osub = smv[1::ostep]
+    olist = [(i, o) for i in osub for o in range(6)]
+    olines = ["MO %d %s%s" % (o, mlines[i][2:], "") for i, o in olist]
+    ores_raw = run_harness(olines)
+    ores, oagain = [], []
+    for r in ores_raw:
+        if " AGAIN " in r:
+            a, b = r.split(" AGAIN ", 1)
+            ores.append(a)
+            oagain.append("M " + b)
+        else:
+            ores.append(r)
+            oagain.append(None)
+    nord = {"bitwise": 0, "within_1e-12": 0, "again_bitwise": 0, "again_within_1e-12": 0}
+    for n, (i, o) in enumerate(olist):
+        ref = ores[n - o]                  # order 0 of the same point
+        for what, a, b, tag in (("order %d vs canonical order" % o, ref, ores[n], ""), ("second calculate_masses()", ores[n], oagain[n], "again_")):
+            if b is None or (tag == "" and o == 0):
+                continue
+            if a == b:
+                nord[tag + "bitwise"] += 1
+                continue
+            d = _rel_diff(a, b)
+            if d is not None and d <= 1e-12:
+                nord[tag + "within_1e-12"] += 1
+                continue
+            nhist += 1
+            ctx.fail("MSSM.setter-order:%s" % ("second-calculate_masses-changes-result" if tag else "order%d-differs-from-canonical" % o),
+                     "%s: %s gives a different result (first differing token %s)" % (_decode(olines[n]), what, _first_diff(a, b)),
+                     {"kind": "O", "line": olines[n], "ref": olines[n - o]})
+    ctx.note("setter_order", dict(points=len(osub), evaluations=len(olist), **nord))
     ctx.note("history_dependent_cases", nhist)
     ctx.note("object_reuse_chain_points", len(rlist))
     ctx.note("mssm_lattice_points", len(mpts))
@@ -454,6 +537,7 @@ def run(ctx):
     chunks = []
     items = [("M", i, mlines[i], mres[i]) for i in range(len(mpts))]
     items += [("R", n, rlines[n], rres[n]) for n in range(len(rlist))]
+    items += [("O", n, olines[n], ores[n]) for n in range(len(olist))]
     for i in range(0, len(items), 200):
         chunks.append(items[i:i + 200])
     cur, curid = [], None
@@ -482,10 +566,10 @@ def run(ctx):
         except ArithmeticError as e:
             raise InfraError("oracle failed: %s" % e)
 
-    skipped = {"M": {}, "T": {}, "R": {}}
-    checked = {"M": 0, "T": 0, "R": 0}
-    worst = {"M": 0.0, "T": 0.0, "R": 0.0}
-    worst_at = {"M": None, "T": None, "R": None}
+    skipped = {"M": {}, "T": {}, "R": {}, "O": {}}
+    checked = {"M": 0, "T": 0, "R": 0, "O": 0}
+    worst = {"M": 0.0, "T": 0.0, "R": 0.0, "O": 0.0}
+    worst_at = {"M": None, "T": None, "R": None, "O": None}
     ntr = {}
     fails = []
     stop = False
@@ -503,10 +587,12 @@ def run(ctx):
                     continue
                 if info["err"] > worst[kind]:
                     worst[kind] = info["err"]
-                    worst_at[kind] = {"M": mlines, "T": tlines, "R": rlines}[kind][idx]
-                if kind in ("M", "R"):
+                    worst_at[kind] = {"M": mlines, "T": tlines, "R": rlines, "O": olines}[kind][idx]
+                if kind in ("M", "R", "O"):
                     ntr[info["ntr"]] = ntr.get(info["ntr"], 0) + 1
-                if kind == "R":
+                if kind == "O":
+                    ctx.nontrivial(("MSSM-order", olist[idx][1], info["sig"][0], info["sig"][1]))
+                elif kind == "R":
                     ctx.nontrivial(("MSSM-reuse", rlist[idx][1], info["sig"][0], info["sig"][1]))
                 elif kind == "M":
                     q = mpts[idx][0]
@@ -520,7 +606,13 @@ def run(ctx):
         if stop:
             pool.terminate()
     for kind, idx, info in fails:
-        if kind == "R":
+        if kind == "O":
+            i, o = olist[idx]
+            q, origin, sm = mpts[i]
+            ctx.fail("MSSM.setter-order:order%d:%s:sgn(mu,M1,M2)=%s" % (o, info["which"], sign_name(q)),
+                     "%s (set-up order %d = %s): %s" % (_decode(olines[idx]), o, ORDER_NAME[o], info["what"]),
+                     {"kind": "M", "line": olines[idx]})
+        elif kind == "R":
             i, cmd = rlist[idx]
             q, origin, sm = mpts[i]
             ctx.fail("MSSM.object-reuse:%s:%s:sgn(mu,M1,M2)=%s" % (cmd, info["which"], sign_name(q)),
@@ -537,7 +629,11 @@ def run(ctx):
             b, typ, pname, smc = tpts[idx][1]
             key = "THDM.%s:%s-basis:type%d:%s:%s" % (info["which"], b, typ, pname, smc)
             ctx.fail(key, "%s: %s" % (_decode(tlines[idx]), info["what"]), {"kind": "T", "line": tlines[idx]})
-    ctx.evals(checked["M"] + checked["T"] + checked["R"])
+    ctx.evals(checked["M"] + checked["T"] + checked["R"] + checked["O"])
+    print("[C03] MSSM setter-order family: %d points x 6 orders, %d checked by the oracle, %d skipped; vs canonical: %d bitwise, %d within 1e-12; "
+          "second calculate_masses(): %d bitwise, %d within 1e-12; worst oracle deviation %.2e"
+          % (len(osub), checked["O"], sum(skipped["O"].values()), nord["bitwise"], nord["within_1e-12"], nord["again_bitwise"],
+             nord["again_within_1e-12"], worst["O"]))
     print("[C03] MSSM non-tan-beta-resummed clause: %s" % dict(sorted(ntr.items())))
     print("[C03] MSSM object re-use chain: %d points, %d checked, %d skipped %s; worst deviation %.2e"
           % (len(rlist), checked["R"], sum(skipped["R"].values()), dict(sorted(skipped["R"].items())), worst["R"]))
@@ -590,6 +686,18 @@ def replay(ctx, path):
             print("VIOLATION property=C03 replay=%s" % path)
             return 1
         print("replay: holds now: chain of %d points ending in %s" % (len(d["lines"]), _decode(d["lines"][-1])))
+        return 0
+    if d["kind"] == "O":
+        a, b = run_harness([d["ref"], d["line"]])
+        b1, b2 = (b.split(" AGAIN ", 1) + [None])[:2]
+        a1 = a.split(" AGAIN ", 1)[0]
+        bad = [w for w, x, y in (("order", a1, b1), ("second calculate_masses()", b1, "M " + b2 if b2 else b1))
+               if x != y and not ((_rel_diff(x, y) or 1) <= 1e-12)]
+        if bad:
+            print("replay: %s differs (%s)" % (_decode(d["line"]), ", ".join(bad)))
+            print("VIOLATION property=C03 replay=%s" % path)
+            return 1
+        print("replay: holds now: %s independent of the set-up order and of a second calculate_masses()" % _decode(d["line"]))
         return 0
     if d["kind"] == "H":
         alone = run_harness([d["line"]])[0]
